@@ -125,6 +125,32 @@ func runC03(r *Run) {
 		}
 		strs = append(strs, string(b))
 	}
+	// a validator object that is configured a second time (Cleanup + Provision of the same value, a struct with a pre-set
+	// ModeParsed): what the mode string means must not depend on what the object meant before
+	docd := []string{"", "prefer_ocsp", "prefer_crl", "ocsp_only", "crl_only", "disabled"}
+	for _, a := range docd {
+		for _, b := range docd {
+			v := &revocation.CertRevocationValidator{Mode: a}
+			if err := revocation.VerifParseMode(v); err != nil {
+				continue
+			}
+			v.Mode = b
+			obs := "none"
+			if err := revocation.VerifParseMode(v); err == nil {
+				obs = modeName(v.ModeParsed)
+			}
+			r.Op("mode parse "+hexs([]byte(b)), obs)
+			r.Eval("reparse/"+a+"/"+b, true)
+			r.Count("reparse:" + obs)
+			want := b
+			if b == "" {
+				want = "prefer_ocsp"
+			}
+			if obs != want {
+				r.Violate("C03 parse-mode", fmt.Sprintf("mode string %q parsed to %s on an object that was %q before, documented %s", b, obs, a, want), map[string]string{"mode": b, "before": a})
+			}
+		}
+	}
 	for _, s := range strs {
 		v := &revocation.CertRevocationValidator{Mode: s}
 		obs := "none"
